@@ -1501,3 +1501,43 @@ def c07_s10(ctx):
         raise Anchor("C07-S10", "the received NAK's segment_requests in SendTransaction::process_pdu")
     if n == 0:
         yield ok("C07-S10", "process_pdu:segment_requests", at(f), "no dropping adaptor between the received list and the queue")
+
+
+# ================================================================ C08-N11: who may arm the NAK timer
+@rule("C08", "C08-N11", 3, "under the deferred procedure nothing makes a NAK go out before the EOF: the receiver's NAK timer is armed only when a NAK was just sent, on resume, or on a path where the procedure is Immediate or the EOF has been received")
+def c08_n11(ctx):
+    fns = impl_fns(ctx, RECV)
+    n = 0
+    cnt = {}
+    for f in fns:
+        fl = None
+        for b, t in f.all_calls():
+            d, r, _ = ctx.prog.callee_of(t)
+            cal = r or d or ""
+            if not (cal.endswith("Timer::restart_nak") or cal.endswith("Timer::reset_nak")):
+                continue
+            n += 1
+            base = "RecvTransaction::%s:%s" % (f.name, cal.split("::")[-1])
+            cnt[base] = cnt.get(base, 0) + 1
+            key = base + ("#%d" % cnt[base] if cnt[base] > 1 else "")
+            if f.name in ("send_naks", "resume"):
+                yield ok("C08-N11", key, at(f, t["span"]["line"]), "armed where a NAK is sent / on resume (C19-D checks its condition)")
+                continue
+            if fl is None:
+                fl = Flow(ctx.prog, ctx.mods, f, lambda k: (k[0] == "val" and k[1].endswith("nak_procedure")) or (k[0] == "call" and k[1].split("::")[-1] == "eof_received"))
+            ws = [dict(w) for w in fl.at_term(b)]
+
+            def allowed(w):
+                for k, (pos, vs) in w.items():
+                    if k[0] == "val" and k[1].endswith("nak_procedure") and ((pos and set(vs) == {"Immediate"}) or (not pos and "Deferred" in vs)):
+                        return True
+                    if k[0] == "call" and pos and set(vs) == {1}:
+                        return True
+                return False
+
+            if ws and all(allowed(w) for w in ws):
+                yield ok("C08-N11", key, at(f, t["span"]["line"]), "under the Immediate procedure / after EOF")
+            else:
+                yield bad("C08-N11", key, at(f, t["span"]["line"]), "%s arms the NAK timer on a path where the procedure may be Deferred and no EOF has been received: when it expires the receiver queues and sends a NAK that nobody solicited" % f.name)
+    if n == 0:
+        raise Anchor("C08-N11", "restart_nak / reset_nak in the receiver")
